@@ -12,27 +12,42 @@ NOT_APPLICABLE = {
     # property id -> reason (only for properties with no claimed check)
 }
 
+COMMON = ("functions are normalised first (private helpers inlined with tail-call/return handling, conditional expressions lowered) and "
+          "evaluated symbolically (locals, temporaries, comprehensions dissolved into terms over parameters/fields); rules match terms "
+          "and ask path questions (dominance, must-pass-through, flag-refined reachability) on a hand-built CFG")
 TECH = {
-    "C01": "CFG must-pass-through/dominance + reaching definitions on Manager.set_value; DFS template check; call-graph recursion check",
-    "C02": "CFG/AST template rules on run_tasks, toposort/_dfs; index-effect summary of register vs docstring reference",
-    "C03": "symbolic index-effect summaries of register/unregister compared as inverses; CFG ordering in set_value/load",
-    "C04": "exhaustive AST table check: dunder -> node class -> _get_value operator against the Python data model",
-    "C05": "field-flow analysis: fields read by _get_value vs fields traversed by _get_dependencies; nullness of the dispatch family",
-    "C06": "field-set agreement between _hash tuples and __repr__ renderings; injectivity of rendering per class",
-    "C07": "writer inventory + CFG dominance: every write to the index column / cache inputs reaches a cache invalidation",
-    "C08": "nullness + bound-role dataflow in _get_row_indices; unordered-to-ordered flow; single-selector routing",
-    "C09": "CFG must-pass-through on Optimize.solve; typestate (flag assigned on every path) on MeritFunctionForMatch.__call__",
-    "C10": "call-signature conformance, enable/disable pairing, guard dominance of knob writes, limit-test shape",
-    "C11": "repr completeness/precedence rules per node class; dataflow of printed text on the dump/load/copy path",
-    "C12": "__reduce__ tuple vs __cinit__ parameter->field map; Manager attribute pickle-safety",
-    "C13": "template check of mk_fun/gen_fun (task list from find_tasks, header, assignments, tasks once in order)",
-    "C14": "alias/escape analysis of column lists into verify=False constructors; attribute existence; no source mutation",
-    "C15": "path-sensitive per-key append count over the CFG of the logging regions; take_best window dataflow",
-    "C16": "symbolic shape inference over numpy expressions; inverse-pair and finite-difference template checks",
-    "C17": "dominance of every definition/index mutation by the frozen guard, interprocedural over Manager methods; who-may-write",
-    "C18": "handler inventory on the update path; effect summary of run_tasks; no early exit between write and propagation",
-    "C19": "lark parse of the grammar constant: alias/callback exhaustiveness, operator agreement, evaluator wiring",
-    "C20": "__cinit__ order-independence and signature agreement along each MRO; compiled-branch inventory; unordered-flow inventory",
+    "C01": "CFG must-pass-through/dominance on Manager.set_value over symbolic call events; trigger-closure terms of find_tasks/find_taskids; "
+           "reverse-post-order DFS template on flag-refined paths; call-graph recursion check; in-place operator table",
+    "C02": "loop/term rules on run_tasks; DFS template; symbolic index-effect summary of register vs the docstring reference; inverse "
+           "effects with iteration-space (multiplicity) comparison",
+    "C03": "symbolic index-effect summaries of register/unregister compared as inverses incl. multiplicity; must-know path rule "
+           "(unregistered-or-absent) in set_value/load; RefCount semantics on terms",
+    "C04": "exhaustive table check on terms: dunder -> node class -> value term of _get_value against the Python data model",
+    "C05": "slot flow on terms: slots read through _mk_value vs slots traversed, must-traverse on every path; path-sensitive nullness "
+           "of the dispatch family; accumulator discipline",
+    "C06": "field-set agreement between _hash tuples and __repr__ terms, lossless rendering contexts, injective templates, __eq__ return terms",
+    "C07": "symbolic writer inventory of Table + CFG rule: every write that may hit the index column reaches an invalidation conditioned "
+           "on nothing but the key; resolver/parser terms",
+    "C08": "selector as (conditions, returned term) pairs: nullness, bound roles, order of gathered positions, routing of rows/indices/mask",
+    "C09": "CFG must-pass-through on Optimize.solve (good-branch formulation), handler ordering, typestate of the tolerance flag, "
+           "must-call in JacobianSolver.eval, reload store terms",
+    "C10": "call-signature conformance, enable/disable pairing on paths, guard conditions of knob stores, limit tests, mask plumbing and "
+           "post-masking stores on terms",
+    "C11": "repr completeness/precedence rules per node class; dump/load/copy_expr_from as terms (namespace accumulator, overwrite paths)",
+    "C12": "__reduce__ return terms vs __cinit__ parameter->field map on all paths; Manager pickle-safety incl. class-level state",
+    "C13": "generated source as a normalised string-template term (header, assignments, one schedule); gen_fun exec term; shared scheduler rules",
+    "C14": "freshness (escape) of column lists/data dicts reaching verify=False constructors on terms; uniform selection contributions; "
+           "row-axis concatenation; attribute existence; no source mutation",
+    "C15": "path-sensitive per-key append count over the step-loop body region and add_point_to_log; take_best window terms and "
+           "dominance of the start-point logging; row consistency",
+    "C16": "symbolic shape inference over terms; sympy identities on the scaling-map terms; Broyden secant-pair and finite-difference templates",
+    "C17": "frozen-guard conditions of every symbolic index effect, interprocedural fixpoint over Manager methods; who-may-write; "
+           "refuse-before-write ordering; fresh schedule",
+    "C18": "handler inventory on the update path; no manager-state effects while running; retry re-runs everything (must-pass rules)",
+    "C19": "lark parse of the grammar constant: alias/callback exhaustiveness, operator agreement; evaluator wiring and statelessness on terms; "
+           "shared operand-algebra and dependency rules",
+    "C20": "__cinit__ order-independence and signature agreement along each MRO; enforced-type annotations; compiled-branch inventory; "
+           "set-typed iteration terms reaching order-sensitive sinks",
 }
 
 
@@ -63,7 +78,7 @@ def main():
             },
             "level_note": "Trusted base: CPython ast, the xsa engine (program model, CFG, dataflow), networkx, the Python "
                           "data-model tables in xsa. Assumes: " + "; ".join(meta.get("assumptions", [])),
-            "technique": "static analysis: " + TECH[pid],
+            "technique": "static analysis: " + TECH[pid] + ". Engine: " + COMMON,
         })
     manifest = {
         "version": 1,
@@ -79,9 +94,11 @@ def main():
             "name": "xsa",
             "path": "/verif/xsa",
             "serves_properties": [c["property_id"] for c in checks],
-            "kind_free_text": "repository-specific static analyser: ast program model, hand-built statement CFG on networkx "
-                              "(dominators, must-pass-through), reaching definitions, symbolic index-effect summaries, "
-                              "per-property rule modules; lark for the MAD-X grammar constant",
+            "kind_free_text": "repository-specific static analyser: ast program model; source normaliser (helper inlining, lowering); "
+                              "hand-built statement CFG on networkx (dominators, must-pass-through, boolean-flag refinement); reaching "
+                              "definitions; symbolic term evaluator with accumulators, condition normalisation and term matching; "
+                              "symbolic index-effect summaries; term-level shape inference; sympy for algebraic identities; lark for the "
+                              "MAD-X grammar constant; per-property rule modules",
         }],
         "checks": checks,
         "not_applicable": na,
